@@ -15,6 +15,7 @@ import (
 	"net"
 	"os"
 	"path/filepath"
+	"strconv"
 	"strings"
 	"sync"
 	"sync/atomic"
@@ -280,7 +281,7 @@ func vfC08Run(run *vfkit.Run, cs *vfC08Case) {
 					b, _ := xml.Marshal(iq)
 					return string(b)
 				}
-				if r.Intn(8) == 0 {
+				if r.Intn(30) == 0 {
 					// a stanza whose serialized length is exactly a buffer size of the path, or one byte off
 					target := []int{4096, 32768, 65536}[r.Intn(3)] + r.Intn(3) - 1
 					if base := len(build(0)); target > base {
@@ -500,6 +501,14 @@ func TestVf_C08(t *testing.T) {
 		}
 		return
 	}
+	if n, _ := strconv.Atoi(os.Getenv("VF_C08_WSLOOP")); n > 0 { // debugging aid: only the websocket-close cases, n times
+		for i := 0; i < n && run.NViolations() == 0; i++ {
+			for _, code := range []int{1000, 1001, 1008, 1011} {
+				vfC08WSClosed(run, code, int64(i))
+			}
+		}
+		return
+	}
 	vfC08LoggerUnit(run)
 	c := int64(0)
 	rounds := vfkit.Pick(1, 12)
@@ -546,7 +555,120 @@ func TestVf_C08(t *testing.T) {
 			}
 		}
 	}
+	// WebSocket: once the server has closed the connection - politely or not - nothing can reach the wire any more, so
+	// no send may report success
+	var wsw sync.WaitGroup
+	for _, code := range []int{1000, 1001, 1008, 1011} {
+		c++
+		wsw.Add(1)
+		go func(code int, seed int64) {
+			defer wsw.Done()
+			vfC08WSClosed(run, code, seed)
+		}(code, vfkit.Seed()*100000+c)
+	}
+	wsw.Wait()
 	if run.NViolations() > 0 {
 		t.Fail()
 	}
+}
+
+func vfC08WSClosed(run *vfkit.Run, code int, seed int64) {
+	cs := map[string]interface{}{"mode": "client-ws", "server_close_status": code, "seed": seed}
+	run.Case(cs)
+	ready, doClose, closed := make(chan struct{}), make(chan struct{}), make(chan struct{})
+	var perr error
+	var wsc *vfWSConn
+	wp := vfNewWSPeer(nil, func(w *vfWSConn) {
+		if err := vfWSNegotiate(w, false, true); err != nil {
+			perr = err
+			close(ready)
+			return
+		}
+		wsc = w
+		go func() {
+			for {
+				if _, err := w.Read(); err != nil {
+					return
+				}
+			}
+		}()
+		close(ready)
+		<-doClose
+		w.CloseWith(code, "the server ends the session")
+		close(closed)
+	})
+	defer wp.Stop()
+	c, _, err := vfNewClient(vfClientOpt{Addr: wp.URL(), Insecure: true}, NewRouter())
+	if err != nil {
+		run.Inconclusive("newclient")
+		return
+	}
+	if err := c.Connect(); err != nil {
+		run.Inconclusive("connect-ws")
+		return
+	}
+	defer func() { go c.Disconnect() }()
+	<-ready
+	if perr != nil {
+		run.Inconclusive("peer-script")
+		return
+	}
+	// positive control: a send on the open connection arrives
+	first := fmt.Sprintf("<message id='open-%d' to='x@y'><body>still open</body></message>", seed)
+	if err := c.SendRaw(first); err != nil {
+		run.Inconclusive("send-on-open-connection-failed")
+		return
+	}
+	if !vfWaitUntil(10*time.Second, func() bool { return strings.Contains(strings.Join(wsc.Received(), ""), first) }) {
+		run.Violation("C08/stanza-not-whole-on-wire:client-ws:sm=false:log=false", "a stanza sent on the open websocket never arrived", cs)
+		return
+	}
+	before := len(wsc.Received())
+	close(doClose)
+	select {
+	case <-closed:
+	case <-time.After(20 * time.Second):
+		run.Inconclusive("ws-close-watchdog")
+		return
+	}
+	// The client learns of the close a moment after the server's handshake completes (its reader echoes the close frame
+	// first and marks the connection closed next), and a write in that moment is a write on a connection that was
+	// still open as far as the client could know. So: sends must start failing (within 100 attempts), and once one
+	// has failed none may succeed again.
+	send := func(i int) error {
+		id := fmt.Sprintf("closed-%d-%d", seed, i)
+		switch i % 3 {
+		case 0:
+			return c.Send(stanza.Message{Attrs: stanza.Attrs{Id: id, To: "a@b"}, Body: "anyone?"})
+		case 1:
+			return c.SendRaw("<message id='" + id + "' to='x@y'><body>anyone?</body></message>")
+		}
+		iq, _ := stanza.NewIQ(stanza.Attrs{Id: id, Type: "get", To: "srv"})
+		iq.Payload = &stanza.Version{}
+		ctx, cancel := context.WithCancel(context.Background())
+		defer cancel()
+		_, err := c.SendIQ(ctx, iq)
+		return err
+	}
+	failedAt := -1
+	for i := 0; i < 100; i++ {
+		if send(i) != nil {
+			failedAt = i
+			break
+		}
+		time.Sleep(2 * time.Millisecond)
+	}
+	arrived := strings.Join(wsc.Received()[before:], "")
+	if failedAt < 0 {
+		run.Violation("C08/failed-write-not-reported:ws-after-server-close", fmt.Sprintf("the server closed the websocket with status %d (closing handshake complete); 100 sends over 200 ms all returned nil, the server received %d bytes of them", code, len(arrived)), cs)
+		return
+	}
+	for i := failedAt + 1; i < failedAt+7; i++ {
+		if send(i) == nil {
+			run.Violation("C08/failed-write-not-reported:ws-after-server-close", fmt.Sprintf("the server closed the websocket with status %d; send #%d failed, send #%d returned nil again", code, failedAt, i), cs)
+			return
+		}
+	}
+	run.Count("sends_after_websocket_close_refused", 3)
+	run.Nontrivial(fmt.Sprintf("ws-closed|%d", code))
 }
